@@ -1,5 +1,7 @@
 import TexcraftModel.Util.Proto
 import TexcraftModel.Model.C10
+import TexcraftModel.Model.C10Ser
+import TexcraftModel.Model.C10Cst
 
 /-! Driver for C10 (TFM reader front end). Requests (all numbers decimal):
 
@@ -8,6 +10,11 @@ import TexcraftModel.Model.C10
 * `chk <len> <12 sizes> <bc> <ec> <11 × start stop>`        → `1`/`0`: spec `layoutOKB` on a
                                                                claimed (real) layout
 * `hb <12 sizes>`                                           → the 24 bytes `headerBytes` writes
+* `ser <headerExtra> <hasChars> <bc> <ec> <nw> <nh> <nd> <ni> <steps> <added> <nk> <ne> <np>`
+                                                             → `serializeSizes` of the shape and the first
+                                                               failing clause of `ShapeOK` (0 = none)
+* `cst <k> <k non-ASCII alphanumeric code points> <text code points…>`
+                                                             → `Cst.cstModel`: tree and warnings as integers
 * `vf <nw> <nh> <nd> <ni> <n> <n × (w h d i)>`              → clamped indices, then `1`/`0`
                                                                (all in range)
 * `tag <nl> <ne> <kind> <value> <exists01>`                 → `drop` / `keep`
@@ -69,6 +76,44 @@ def dimsOfInts : List Int → Option (List Dims)
       | none => none
   | _ => none
 
+/-! ### CST: encoding of trees and warnings as integers (the harness encodes the real `Cst`
+the same way). Node: `0 len chars…` (comment) | `1 open keyS keyE dataS dataE closeS closeE
+keyLen key… dataLen data… nChildren children…`; warning: `0 at openPos` | `1 at` |
+`2 start stop len chars…`. -/
+
+def encChars (l : List Char) : List Nat := l.length :: l.map Char.toNat
+
+mutual
+  def encNode : Cst.Node → List Nat
+    | .comment t => 0 :: encChars t
+    | .regular o key ks data ds children cl =>
+      [1, o, ks.start, ks.stop, ds.start, ds.stop, cl.start, cl.stop] ++ encChars key ++ encChars data ++
+        (children.length :: encNodes children)
+  def encNodes : List Cst.Node → List Nat
+    | [] => []
+    | n :: ns => encNode n ++ encNodes ns
+end
+
+def encWarning : Cst.Warning → List Nat
+  | .unbalancedOpen a o => [0, a, o]
+  | .unexpectedClose a => [1, a]
+  | .junk sp t => [2, sp.start, sp.stop] ++ encChars t
+
+def asciiAlnum (c : Char) : Bool := c.isAlphanum
+
+def handleCst (ws : List Nat) : String :=
+  match ws with
+  | k :: rest =>
+    if rest.length < k then "bad-request" else
+    let extra := rest.take k
+    let text := (rest.drop k).map Char.ofNat
+    let alnum : Char → Bool := fun c => asciiAlnum c || extra.contains c.toNat
+    match Cst.cstModel alnum text with
+    | .outOfFuel => "outoffuel"
+    | .ok tree warnings =>
+      showNats ((tree.length :: encNodes tree) ++ (warnings.length :: (warnings.map encWarning).flatten))
+  | [] => "bad-request"
+
 def handle (line : String) : String :=
   match words line with
   | "raw" :: len :: bs =>
@@ -94,6 +139,21 @@ def handle (line : String) : String :=
     | some [lf, lh, bc, ec, nw, nh, nd, ni, nl, nk, ne, np] =>
       showNats (headerBytes ⟨lf, lh, bc, ec, nw, nh, nd, ni, nl, nk, ne, np⟩)
     | _ => "bad-request"
+  | "ser" :: ws =>
+    match nats? ws with
+    | some [hx, hasChars, bc, ec, nw, nh, nd, ni, steps, added, nk, ne, np] =>
+      let f : FileShape := ⟨hx, if hasChars = 0 then none else some (bc, ec), nw, nh, nd, ni, steps, added, nk, ne, np⟩
+      let v := shapeViolation f
+      match serializeSizes f with
+      | .ok s => s!"ok {showSizes s} viol={v}"
+      | .panic .lhCast => s!"panic lhcast viol={v}"
+      | .panic (.sectionCast k) => s!"panic section{k} viol={v}"
+      | .panic .lfOverflow => s!"panic lfoverflow viol={v}"
+    | _ => "bad-request"
+  | "cst" :: ws =>
+    match nats? ws with
+    | some ns => handleCst ns
+    | none => "bad-request"
   | "vf" :: ws =>
     match nats? ws with
     | some (nw :: nh :: nd :: ni :: n :: rest) =>
